@@ -613,7 +613,7 @@ func genAbortingResume(r *vh.Rng) jobctl.History {
 	}
 	h.Ops = append(h.Ops, jobctl.Op{Code: 1, Req: resume}, jobctl.Op{Code: 7}, jobctl.Op{Code: 8}, jobctl.Op{Code: 6})
 	// what follows: the Restarting / Pending job is reconciled again
-	for k := r.Range(1, 3); k > 0; k-- {
+	for k := r.Range(2, 3); k > 0; k-- {
 		h.Ops = append(h.Ops, jobctl.Op{Code: 1, Req: jobctl.Req{Event: 8, UidMatch: 1, Version: h.Status.Version + 1}}, jobctl.Op{Code: 7}, jobctl.Op{Code: 8})
 	}
 	return h
@@ -646,10 +646,9 @@ func genDeleteClasses(r *vh.Rng) jobctl.History {
 		}
 	}
 	h.Pg = i64p(3)
-	victim := vh.Pick(r, h.Pods)
-	victim = h.Pods[len(h.Pods)-1-r.Intn(1)] // mostly the last pod (the surplus one when there is one)
+	victim := h.Pods[len(h.Pods)-1] // the last pod (the surplus one when there is one) ...
 	if r.Chance(1, 2) {
-		victim = vh.Pick(r, h.Pods)
+		victim = vh.Pick(r, h.Pods) // ... or any pod
 	}
 	q := jobctl.Req{Event: 8, UidMatch: 1, Version: h.Status.Version}
 	if h.Status.Phase == 4 || h.Status.Phase == 1 {
@@ -671,6 +670,48 @@ func genDeleteClasses(r *vh.Rng) jobctl.History {
 	h.Ops = append(h.Ops, jobctl.Op{Code: 1, Req: q2}, jobctl.Op{Code: 7}, jobctl.Op{Code: 8},
 		jobctl.Op{Code: 1, Req: jobctl.Req{Event: 8, UidMatch: 1, Version: h.Status.Version + 1}})
 	return h
+}
+
+// the rule's predicate: requests delivered (every history of the directed families has >= 1 replica)
+func countReqs(h jobctl.History) int {
+	n := 0
+	for _, o := range h.Ops {
+		if o.Code == 1 {
+			n++
+		}
+	}
+	return n
+}
+
+// does the refused DELETE of a delete-classes history have a chance to be attempted?  The victim must be a live
+// pod that the first request's reconciliation deletes: for a job-level kill a pod that is not a retained
+// finished one, for a restart-pod command the named pod, for a sync the surplus index
+func delClassBites(h jobctl.History) bool {
+	q := h.Ops[0].Req
+	if len(q.Faults) == 0 {
+		return false
+	}
+	f := q.Faults[0]
+	for _, p := range h.Pods {
+		if p.Task != f.A || p.Idx != f.B || p.Del {
+			continue
+		}
+		var repl int64
+		for _, t := range h.Spec.Tasks {
+			if t.Name == p.Task {
+				repl = t.Replicas
+			}
+		}
+		sync := q.Action == nil && (h.Status.Phase == 4 || h.Status.Phase == 1)
+		if sync {
+			return p.Idx >= repl
+		}
+		if q.Action != nil && *q.Action == 4 {
+			return true
+		}
+		return p.Phase != 2 && p.Phase != 3
+	}
+	return false
 }
 
 func descHistory(h jobctl.History) any {
@@ -724,7 +765,7 @@ func gen(rng *vh.Rng, n int, emit func(id string, sel int, in []int64, kind stri
 		h := genAbortingResume(r)
 		w := &jobctl.W{}
 		w.History(h)
-		emit(fmt.Sprintf("hist-abortresume-%d", i), 1, w.T, "history/aborting-resume", true, descHistory(h))
+		emit(fmt.Sprintf("hist-abortresume-%d", i), 1, w.T, "history/aborting-resume", countReqs(h) >= 3, descHistory(h))
 	}
 	// error classes of a refused pod DELETE
 	for i := 0; i < n/4+1; i++ {
@@ -732,6 +773,6 @@ func gen(rng *vh.Rng, n int, emit func(id string, sel int, in []int64, kind stri
 		h := genDeleteClasses(r)
 		w := &jobctl.W{}
 		w.History(h)
-		emit(fmt.Sprintf("hist-delclass-%d", i), 1, w.T, "history/delete-classes", true, descHistory(h))
+		emit(fmt.Sprintf("hist-delclass-%d", i), 1, w.T, "history/delete-classes", countReqs(h) >= 3 && delClassBites(h), descHistory(h))
 	}
 }
